@@ -7,6 +7,10 @@ CHECKS = {
    text="Explicit-state search over cluster worlds: every transition is a REAL scheduler cycle (cache.New+OpenSession+actions+CloseSession on fake clientsets) or an atomic environment event; after every cycle, per node, requests of occupying pods (running, terminating, bound, being bound) plus this cycle's binds are recomputed from pod specs and compared with node allocatable (cpu, memory, pod slots, whole GPUs, extended resources). Bind/evict API faults derived from each cycle's decisions are injected (singles quick, pairs thorough).",
    note="Trusted: client-go fake trackers + 3 reactors (graceful pod delete, status sub-resource, injected faults), the environment events (bind completes, pod terminates), the ~300-line reference request calculator. Small scope: <=3 nodes, <=4 workloads, depth 3/4.",
    technique="explicit-state model checking of the implementation (BFS over canonical cluster worlds, real scheduler cycle as transition relation, exhaustive derived fault sets)"),
+ "C02": dict(engine="clustermc", cat="model_checking", ref="§5 C02",
+   text="Same engine as C01 on the *share* grammar (fraction .3/.5/.7, gpu-memory, multi-fraction, whole-GPU requests against running / terminating / binding sharers on 1-2 GPU nodes with and without the gpu.memory label): after every real cycle, per physical device (GPU group) the demand of all attached pods plus this cycle's binds is recomputed from annotations and compared with the device; whole + shared devices <= node GPU count; N-device requests get N distinct groups; groups never span nodes.",
+   note="Trusted: as C01; the environment labels bound consumers exactly as the binder does (plain label for 1 device, runai-gpu-group/<g> for multi-device).",
+   technique="explicit-state model checking of the implementation (BFS over canonical cluster worlds, real scheduler cycle as transition relation)"),
 }
 
 NOT_APPLICABLE = []
